@@ -228,7 +228,7 @@ class EscapeSequence(SpanToken):
 
     @classmethod
     def strip(cls, string):
-        return html.unescape(cls.pattern.sub(r'\1', string))
+        return tokenizer.unescape(cls.pattern.sub(r'\1', string))
 
 
 class LineBreak(SpanToken):
